@@ -58,8 +58,11 @@ func (s *Session) and(a, b *Term) *Term { return s.mk("and", 0, a, b) }
 func (s *Session) or(a, b *Term) *Term  { return s.mk("or", 0, a, b) }
 
 func symStrBinop(op token.Token, x, y value) value {
-	s := sessOf(x, y)
 	a, b := strBytes(x), strBytes(y)
+	if op == token.ADD {
+		return mkStr(append(append([]value{}, a...), b...))
+	}
+	s := sessOf(x, y)
 	switch op {
 	case token.ADD:
 		return mkStr(append(append([]value{}, a...), b...))
